@@ -85,7 +85,7 @@ const CHUNK: u64 = 200;
 
 fn pipeline_unit(ctx: &Ctx, si: usize, chunk: u64, n: u64, run_id: u64) -> UnitOut {
     let mut out = UnitOut::default();
-    let (name, f) = PIPELINES[si];
+    let (name, f) = pipelines()[si];
     let mut sigbuf = Box::new([0u8; 4627]);
     let mut pb = Prng::for_run(ctx.seed, &format!("c14-pipeline-base-{name}"), 0);
     let mut base = [0u8; 64];
@@ -258,7 +258,7 @@ fn run(ctx: &Ctx) -> i32 {
     };
     let ks = kernels();
     let mut units: Vec<(bool, usize, u64)> = Vec::new();
-    for si in 0..PIPELINES.len() {
+    for si in 0..pipelines().len() {
         for c in 0..((n_pipe + CHUNK - 1) / CHUNK) {
             units.push((true, si, c));
         }
@@ -363,7 +363,8 @@ fn replay_body(body: &Value) -> Result<Option<(String, String, String)>, String>
     match body["window"].as_str() {
         Some("pipeline") => {
             let name = body["set"].as_str().ok_or("no set")?;
-            let (_, f) = PIPELINES.iter().find(|(n, _)| *n == name).ok_or("unknown set")?;
+            let pl = pipelines();
+            let (_, f) = pl.iter().find(|(n, _)| *n == name).ok_or("set not compiled into this build")?;
             let to64 = |v: &Value| -> Result<[u8; 64], String> { unhx(v).try_into().map_err(|_| "draw must be 64 bytes".to_string()) };
             let base = Box::new(to64(&body["baseline_draw"])?);
             let d = Box::new(to64(&body["draw"])?);
